@@ -1286,3 +1286,167 @@ def task_resolve_names():
     ex.explore(run)
     return _finish(ex, name, [source.describe(RS + ':resolve_names'), source.describe(RS + ':get_binding_disallow_class_namespace_rename'),
                               source.describe(RS + ':disallow_global_rename')])
+
+
+# ---------------------------------------------------------------------------------------------------------------------
+# NameBinder visitor methods and Binding.add_reference   (C03: every binding occurrence is attached to the binding of its name)
+
+BINDER_CASES = [
+    # method, node classes, field holding the bound name, optional?, generic_visit expected?
+    ('visit_ClassDef', {'ClassDef'}, 'name', False, True), ('visit_FunctionDef', {'FunctionDef'}, 'name', False, True),
+    ('visit_AsyncFunctionDef', {'AsyncFunctionDef'}, 'name', False, True), ('visit_ExceptHandler', {'ExceptHandler'}, 'name', True, True),
+    ('visit_MatchAs', {'MatchAs'}, 'name', True, True), ('visit_MatchStar', {'MatchStar'}, 'name', True, True),
+    ('visit_MatchMapping', {'MatchMapping'}, 'rest', True, True), ('visit_TypeVar', {'TypeVar'}, 'name', False, False),
+    ('visit_TypeVarTuple', {'TypeVarTuple'}, 'name', False, False), ('visit_ParamSpec', {'ParamSpec'}, 'name', False, False),
+    ('visit_arg', {'arg'}, 'arg', False, True), ('visit_Name', {'Name'}, 'id', False, False), ('visit_Global', {'Global'}, None, False, False),
+]
+
+
+def task_name_binder_visitors():
+    """For a symbolic node of each binding class: unless the name is shared with the outside (namespace.nonlocal_names, resolved later), the node
+    is added as a reference to NameBinder.get_binding(<the name it binds>, <its own namespace>) -- exactly once, to no other binding -- and the
+    children are visited (generic_visit) so nested binders are reached.  Parameters a caller can name keep their name reserved."""
+    bn = source.import_module(BN)
+    bmod = source.import_module(RB)
+    obligations = []
+    notes = []
+    undec = []
+    fns = []
+    for method, tags, fld, optional, wants_generic in BINDER_CASES:
+        name = 'C03/NameBinder.%s' % method
+        try:
+            fns.append(source.describe(BN + ':NameBinder.' + method))
+        except Exception:
+            continue
+
+        def run(ctx, method=method, tags=tags, fld=fld, optional=optional, wants_generic=wants_generic, name=name):
+            policy = RenPolicy()
+            interp = Interp(ctx, policy=policy)
+            policy.interp = interp
+            root = ctx.new_node(tags, name='node')
+            ns = make_namespace(ctx, 'ns', NAMESPACE_TAGS)
+            ctx.data(root).fields['namespace'] = ns
+            if tags == {'Name'}:
+                cx = interp.getattr(root, 'ctx')
+                # trees from ast.parse carry Load, Store or Del only (Param is python 2)
+                ctx.assume(z3.Or([ctx.data(cx).tagvar == tag_const(t) for t in ('Load', 'Store', 'Del')]))
+            ev = []
+
+            def gb_hook(it, f, a, k):
+                b = ctx.new_obj('inst', bmod.NameBinding, name=ctx.fresh('binding'))
+                ctx.data(b).fields.update({'_name': a[1], '_allow_rename': z3.Bool(ctx.fresh('allow')), '_reserved': None, '_references': ctx.new_list([])})
+                ev.append(('get_binding', a[1], a[2], b))
+                return b
+            interp.hooks[BN + ':NameBinder.get_binding'] = gb_hook
+            for k in bmod.NameBinding.__mro__:
+                if k.__module__.startswith('python_minifier'):
+                    if 'add_reference' in k.__dict__:
+                        interp.hooks['%s:%s.add_reference' % (k.__module__, k.__name__)] = \
+                            lambda it, f, a, kw: ev.append(('add_reference', a[0], a[1], dict(kw, extra=tuple(a[2:]))))
+                    if 'disallow_rename' in k.__dict__:
+                        interp.hooks['%s:%s.disallow_rename' % (k.__module__, k.__name__)] = lambda it, f, a, kw: ev.append(('pin', a[0]))
+            in_place = z3.Bool('arg_can_be_renamed_in_place')
+            interp.hooks[RU + ':arg_rename_in_place'] = lambda it, f, a, k: in_place
+            generic = []
+            for k in bn.NameBinder.__mro__:
+                if k.__module__.startswith('python_minifier') and 'generic_visit' in k.__dict__:
+                    interp.hooks['%s:%s.generic_visit' % (k.__module__, k.__name__)] = lambda it, f, a, kw: generic.append(a[1])
+            glob = Opaque('global_namespace', sort='node')
+            preserved = ctx.new_obj('set', name='preserved')
+            ctx.data(preserved).items = set()
+            gobj = ctx.new_obj('ns', name='module')
+            ctx.data(gobj).fields['preserved'] = preserved
+            ctx.data(gobj).fields['tainted'] = False
+            interp.hooks[RU + ':get_global_namespace'] = lambda it, f, a, k: gobj
+            o = interp.instantiate(bn.NameBinder, [], {})
+            interp.call(interp.getattr(o, method), [root], {})
+            rd = ctx.data(root)
+            shared = z3.Bool('name_in_nonlocal_names_ns')
+            if tags == {'arg'}:
+                shared = z3.BoolVal(False)      # a parameter cannot be declared nonlocal in its own function (SyntaxError): it always binds locally
+            refs = [e for e in ev if e[0] == 'add_reference']
+            gets = [e for e in ev if e[0] == 'get_binding']
+            ctx.check(name + '/references-are-added-for-this-node-only', all(r[2] == root for r in refs), kind='frame')
+            ctx.check(name + '/bindings-are-looked-up-in-the-node-namespace', all(g[2] == ns for g in gets), kind='post', detail=repr([(g[1], g[2]) for g in gets]))
+            if wants_generic:
+                ctx.check(name + '/children-are-visited', generic == [root], kind='post', detail='generic_visit calls: %r' % (generic,))
+            if fld is None:
+                # Global: one reference per listed name
+                nl = rd.fields.get('names')
+                for k, nmv in (ctx.data(nl).items.items() if isinstance(nl, Obj) else []):
+                    g = [g for g in gets if z3.is_expr(g[1]) and z3.is_expr(nmv) and g[1].eq(nmv)]
+                    ok = bool(g) and any(r[1] == g[0][3] for r in refs)
+                    ctx.check(name + '/an-arbitrary-declared-name-is-attached-to-its-binding', ok, kind='inv.step')
+                return
+            nm = rd.fields.get(fld) if fld in rd.fields else interp.getattr(root, fld)
+            binds = z3.BoolVal(True)
+            if tags == {'Name'}:
+                cxd = ctx.data(rd.fields['ctx'])
+                binds = z3.Or(cxd.tagvar == tag_const('Store'), cxd.tagvar == tag_const('Del'))
+            if refs:
+                ctx.check(name + '/exactly-one-reference', len(refs) == 1, kind='post', detail=repr(refs))
+                g = [g for g in gets if g[3] == refs[0][1]]
+                ok = bool(g) and (g[0][1] is nm or (z3.is_expr(g[0][1]) and z3.is_expr(nm) and g[0][1].eq(nm)))
+                ctx.check(name + '/attached-under-the-name-it-binds', ok, kind='post', detail='%r vs %r' % (g and g[0][1], nm))
+                ctx.check(name + '/only-binding-occurrences-of-unshared-names-are-attached', z3.And(z3.Not(shared), binds), kind='post')
+                if tags == {'arg'}:
+                    res = refs[0][3].get('reserved')
+                    if res is None:
+                        ctx.check('C04/NameBinder.visit_arg/only-parameters-no-caller-can-name-give-up-their-name', in_place, kind='post')
+                    else:
+                        ctx.check('C04/NameBinder.visit_arg/a-parameter-a-caller-can-name-reserves-exactly-its-name',
+                                  z3.And(z3.Not(in_place), z3.BoolVal(res is nm or (z3.is_expr(res) and res.eq(nm)))), kind='post')
+                        if refs[0][1] not in [e[1] for e in ev if e[0] == 'pin']:
+                            ctx.check('C04/NameBinder.visit_arg/lambda-parameters-a-caller-can-name-are-pinned', ctx.data(ns).tagvar != tag_const('Lambda'), kind='post')
+            else:
+                if nm is None:
+                    ctx.check(name + '/cover-nothing-bound', True, kind='cover')
+                else:
+                    ctx.check(name + '/every-binding-occurrence-of-an-unshared-name-is-attached', z3.Or(shared, z3.Not(binds)), kind='post',
+                              detail='no reference was added for %r' % (nm,))
+            if method in ('visit_TypeVar', 'visit_TypeVarTuple', 'visit_ParamSpec'):
+                added = ctx.data(preserved).extra.get('sym_items', [])
+                ctx.check('C10/NameBinder.%s/type-parameter-names-are-preserved' % method, any(a[0] == 'add' and (a[1] is nm or (z3.is_expr(a[1]) and a[1].eq(nm))) for a in added),
+                          kind='post', detail=repr(added))
+        ex = Explorer(max_paths=1500)
+        ex.explore(run)
+        obligations += [o.to_json() for o in ex.obligations]
+        if ex.undecided_reason:
+            undec.append((name, ex.undecided_reason))
+        notes.append('%s: %d feasible paths' % (name, len([p for p in ex.paths if p[0] == 'ok'])))
+
+    # Binding.add_reference on the real class
+    def run2(ctx):
+        policy = RenPolicy()
+        interp = Interp(ctx, policy=policy)
+        policy.interp = interp
+        b = ctx.new_obj('inst', bmod.NameBinding, name='binding')
+        refs0 = ctx.new_list([])
+        allow0 = z3.Bool('allow_before')
+        res0 = z3.String('reserved_before')
+        ctx.data(b).fields.update({'_name': z3.String('binding_name'), '_allow_rename': allow0, '_reserved': res0, '_references': refs0})
+        node = ctx.new_node(set(tag_universe()['names']), name='node')
+        has_res = ctx.branch(z3.Bool('reserved_given'))
+        res = z3.String('reserved_argument') if has_res else None
+        allow_arg = z3.Bool('allow_rename_argument')
+        interp.call(interp.getattr(b, 'add_reference'), [node], {'allow_rename': allow_arg, 'reserved': res})
+        d = ctx.data(b)
+        ctx.check('C03/Binding.add_reference/the-node-is-appended-to-the-references', ctx.data(d.fields['_references']).items == [node], kind='post')
+        r1 = d.fields['_reserved']
+        a1 = d.fields['_allow_rename']
+        a1z = a1 if z3.is_expr(a1) else z3.BoolVal(bool(a1))
+        if has_res:
+            ctx.check('C04/Binding.add_reference/a-reserved-name-is-recorded', z3.is_expr(r1) and r1.eq(res), kind='post', detail=repr(r1))
+        ctx.check('C04/Binding.add_reference/never-re-enables-renaming', z3.Implies(a1z, allow0), kind='post')
+        ctx.check('C04/Binding.add_reference/allow_rename-false-pins-the-binding', z3.Implies(z3.Not(allow_arg), z3.Not(a1z)), kind='post')
+    ex2 = Explorer()
+    ex2.explore(run2)
+    obligations += [o.to_json() for o in ex2.obligations]
+    if ex2.undecided_reason:
+        undec.append(('C03/Binding.add_reference', ex2.undecided_reason))
+    fns.append(source.describe(RB + ':Binding.add_reference'))
+    res = result(obligations, fns, ASSUMPTIONS, notes=notes)
+    for nm, why in undec:
+        res['obligations'].append({'name': nm + '/engine', 'status': 'undecided', 'detail': why, 'model': {}, 'time_s': 0, 'backend': 'engine', 'path': None,
+                                   'kind': 'engine', 'goal': None})
+    return res
